@@ -79,9 +79,9 @@ static void blk_seq(void) {
 	static const uint64_t ST[] = { 0, 0xfff0, 0xffffff00ULL, 0x00ffffffffffff00ULL }; for (int s0 = 0; s0 < 4; s0++) { if (!vh_next()) continue; uint64_t v = ST[s0]; for (int i = 0; i < 8; i++) lib[i] = (uint8_t)(v >> (56 - 8 * i)); int bad = 0; for (int step = 0; step < 70000 && !bad; step++) { tls_seq_num_incr(lib); v++; for (int i = 0; i < 8; i++) ref[i] = (uint8_t)(v >> (56 - 8 * i)); vh_evals++; if (memcmp(lib, ref, 8)) { bad = 1; vh_viol("C11:sequence-number:walk-differs-from-the-integer", "\"start\":\"%016llx\",\"step\":%d,\"got\":\"%s\"", (unsigned long long)ST[s0], step, vh_hex(lib, 8)); } } vh_nontriv++; }
 }
 static void blk_gcm(void) {
-	if (!vh_block_begin("gcm")) return; static uint8_t plain[16400 + 8], enc[17000], out[17000]; static const uint8_t TYPES[] = { 21, 22, 23 }; static const size_t PADS[] = { 0, 1, 15, 16, 255 };
+	if (!vh_block_begin("gcm")) return; static uint8_t plain[16400 + 8], enc[17000], out[17000]; static const uint8_t TYPES[] = { 21, 22, 23 }; static const size_t PADS[] = { 0, 1, 15, 16, 255, 256, 1000 }; /* padding is a parameter of TLS 1.3 protection; any amount that keeps the inner plaintext within 2^14+1 octets is legal */
 	for (size_t L = 0; L <= 16384; L++) { if (!vh_next()) continue; if (!vh_thorough && !quick_len(L)) continue; if (vh_deadline_hit()) { vh_capped = 1; continue; }
-		for (int ti = 0; ti < 3; ti++) { int si = (int)((L + ti) % 8); size_t pad = PADS[(L + ti) % 5]; plain[0] = TYPES[ti]; plain[1] = 3; plain[2] = 3; plain[3] = (uint8_t)(L >> 8); plain[4] = (uint8_t)L; memcpy(plain + 5, PAY, L); size_t el = 0;
+		for (int ti = 0; ti < 3; ti++) { int si = (int)((L + ti) % 8); size_t pad = PADS[(L + ti) % 7]; if (L + 1 + pad > 16385) pad = 16385 - (L + 1); plain[0] = TYPES[ti]; plain[1] = 3; plain[2] = 3; plain[3] = (uint8_t)(L >> 8); plain[4] = (uint8_t)L; memcpy(plain + 5, PAY, L); size_t el = 0;
 			int r = tls13_record_encrypt(&GK, GIV, SEQS[si], plain, 5 + L, pad, enc, &el); size_t kk[3] = { L, (size_t)ti, (size_t)si }; vh_eval(vh_hash(kk, sizeof kk, 11)); char key[128];
 			if (r != 1) { snprintf(key, sizeof key, "C11:gcm:encrypt-refused:%s", L ? "nonempty" : "empty-payload"); vh_viol(key, "\"len\":%zu,\"pad\":%zu", L, pad); continue; }
 			uint8_t ty = 0; size_t ol = 0; r = gcm_open(enc, el, SEQS[si], &ty, out, &ol); vh_eval(vh_hash(kk, sizeof kk, 12));
@@ -106,7 +106,8 @@ typedef struct { ep_t e; int done; size_t got; int bad, after_reject_data, rejec
    records behind it must still be delivered */
 static int FT_TYPE, FT_DIR, FT_IDX = -1;
 static int send_foreign(ep_t *e, TLS_CONNECT *c, int type) { static __thread uint8_t plain[64], rec[128]; size_t pl, rl = 0; uint8_t *seq = e->is_client ? c->client_seq_num : c->server_seq_num;
-	if (type == TLS_record_alert) { plain[0] = 1; plain[1] = 90; pl = 2; } else { plain[0] = e->proto == P_TLS13 ? 4 : 0; plain[1] = 0; plain[2] = 0; plain[3] = e->proto == P_TLS13 ? 6 : 0; memset(plain + 4, 0x5a, 6); pl = e->proto == P_TLS13 ? 10 : 4; }
+	if (type >= 100) { /* authentic alert records the alert reader does not know: unknown description, unknown level, body not 2 octets */ static const uint8_t AB[4][16] = { { 2, 120 }, { 3, 0 }, { 1, 90, 0 }, "GET /secret HTTP" }; static const size_t AL_[4] = { 2, 2, 3, 16 }; pl = AL_[type - 100]; memcpy(plain, AB[type - 100], pl); type = TLS_record_alert; }
+	else if (type == TLS_record_alert) { plain[0] = 1; plain[1] = 90; pl = 2; } else { plain[0] = e->proto == P_TLS13 ? 4 : 0; plain[1] = 0; plain[2] = 0; plain[3] = e->proto == P_TLS13 ? 6 : 0; memset(plain + 4, 0x5a, 6); pl = e->proto == P_TLS13 ? 10 : 4; }
 	if (e->proto == P_TLS13) { size_t el = 0; if (tls13_gcm_encrypt(e->is_client ? &c->client_write_key : &c->server_write_key, e->is_client ? c->client_write_iv : c->server_write_iv, seq, type, plain, pl, 0, rec + 5, &el) != 1) return -1; rec[0] = 23; rec[1] = 3; rec[2] = 3; rec[3] = (uint8_t)(el >> 8); rec[4] = (uint8_t)el; rl = 5 + el; }
 	else { uint8_t pr[80]; pr[0] = (uint8_t)type; pr[1] = (uint8_t)(c->protocol >> 8); pr[2] = (uint8_t)c->protocol; pr[3] = 0; pr[4] = (uint8_t)pl; memcpy(pr + 5, plain, pl); if (tls_record_encrypt(e->is_client ? &c->client_write_mac_ctx : &c->server_write_mac_ctx, e->is_client ? &c->client_write_enc_key : &c->server_write_enc_key, seq, pr, 5 + pl, rec, &rl) != 1) return -1; }
 	tls_seq_num_incr(seq); return tls_record_send(rec, rl, c->sock); }
@@ -146,11 +147,12 @@ static void blk_live(void) {
 			(void)after; if (k == L_DROP && got > pre) { snprintf(key, sizeof key, "C11:live:%s:%s:record-accepted-behind-a-gap", PNAME[p], LN[k]); vh_viol(key, "\"dir\":\"%s\",\"record\":%d,\"got\":%zu,\"max\":%zu", dir ? "c2s" : "s2c", idx, got, pre); }
 			vh_sample("{\"block\":\"%s\",\"fault\":\"%s\",\"dir\":\"%s\",\"record\":%d,\"delivered\":%zu}", bn, LN[k], dir ? "c2s" : "s2c", idx, got); }
 		/* authentic records of other content types between the application records */
-		static const int FT[] = { TLS_record_alert, TLS_record_handshake };
-		for (int dir = 0; dir < 2; dir++) for (int idx = 0; idx < 3; idx++) for (int t = 0; t < 2; t++) { if (!vh_next()) continue; LK = L_NONE; LIDX = -1; HSREC[0] = hs0; HSREC[1] = hs1; FT_TYPE = FT[t]; FT_DIR = dir; FT_IDX = idx; live_exec(p); FT_IDX = -1; int kk[4] = { p, dir, idx, 100 + t }; vh_eval(vh_hash(kk, sizeof kk, 37)); char key[160];
-			if (LFAIL[0]) { snprintf(key, sizeof key, "C11:live:%s:interleaved-%s:%s", PNAME[p], t ? "handshake-record" : "warning-alert", LFAIL); vh_viol(key, "\"dir\":\"%s\",\"before-record\":%d", dir ? "c2s" : "s2c", idx); continue; }
+		static const int FT[] = { TLS_record_alert, TLS_record_handshake, 100, 101, 102, 103 }; static const char *FTN[] = { "warning-alert", "handshake-record", "alert-unknown-description", "alert-unknown-level", "alert-3-octets", "alert-16-octets" };
+		for (int dir = 0; dir < 2; dir++) for (int idx = 0; idx < 3; idx++) for (int t = 0; t < 6; t++) { if (!vh_next()) continue; LK = L_NONE; LIDX = -1; HSREC[0] = hs0; HSREC[1] = hs1; FT_TYPE = FT[t]; FT_DIR = dir; FT_IDX = idx; live_exec(p); FT_IDX = -1; int kk[4] = { p, dir, idx, 100 + t }; vh_eval(vh_hash(kk, sizeof kk, 37)); char key[160];
+			if (LFAIL[0]) { snprintf(key, sizeof key, "C11:live:%s:interleaved-%s:%s", PNAME[p], FTN[t], LFAIL); vh_viol(key, "\"dir\":\"%s\",\"before-record\":%d", dir ? "c2s" : "s2c", idx); continue; }
 			int bad = dir ? LO->s_bad : LO->c_bad; size_t got = dir ? LO->s_got : LO->c_got;
-			if (bad || got != 62) { snprintf(key, sizeof key, "C11:live:%s:interleaved-%s:%s", PNAME[p], t ? "handshake-record" : "warning-alert", bad ? "delivered-bytes-not-a-prefix-of-the-sent-stream" : "application-records-behind-it-not-delivered"); vh_viol(key, "\"dir\":\"%s\",\"before-record\":%d,\"delivered\":%zu,\"sent\":62", dir ? "c2s" : "s2c", idx, got); } } }
+			/* the malformed alerts may end the connection; what is delivered must still be a prefix of the sent stream (never the alert body) */
+			if (bad || (t < 2 && got != 62)) { snprintf(key, sizeof key, "C11:live:%s:interleaved-%s:%s", PNAME[p], FTN[t], bad ? "delivered-bytes-not-a-prefix-of-the-sent-stream" : "application-records-behind-it-not-delivered"); vh_viol(key, "\"dir\":\"%s\",\"before-record\":%d,\"delivered\":%zu,\"sent\":62", dir ? "c2s" : "s2c", idx, got); } } }
 }
 int main(int argc, char **argv) { vh_init(argc, argv); app_fill(); setup(); LO = mmap(NULL, sizeof *LO, PROT_READ | PROT_WRITE, MAP_SHARED | MAP_ANONYMOUS, -1, 0); for (int p = 0; p < 3; p++) if (build_side(&LSRV[p], p, 0, 1, NULL) != 1 || build_side(&LCLI[p], p, 1, 1, NULL) != 1) vh_harness_error("creds");
 	if (!freopen("/dev/null", "w", stderr)) {} blk_live(); blk_piecewise(); vh_guarded("C11", blk_cbc, 60); vh_guarded("C11", blk_cbc_longpad, 60); vh_guarded("C11", blk_seq, 60); vh_guarded("C11", blk_gcm, 60); return vh_finish(); }
